@@ -191,7 +191,7 @@ _t('C01', 'Theorems for the whole language (all connectives and spellings via th
    NOTE_TEXT)
 _t('C08', 'Theorems: the scanner satisfies the maximal-munch lexing relation Lexes for every text and that relation is functional, so the scanner output is THE tokenisation (C08_lex, C08_lex_unique); for every text that tokenizes, parse ts = Ok f iff G_formula ts f for the unambiguous '
           'closed/open grammar (C08_parse: soundness and completeness, all 32 token kinds, optional trailing commas, right-associative operators without precedence, bodies extending right), and derivations are unique (C08_unique); the parser is onto: every syntax tree without embedded diagram is the parse of its fully bracketed print-out, parse (unparse f ++ [Eof]) = Ok f, and parser output never contains an embedded diagram (C08_print_parse, C08_parse_trees). '
-          'Correspondence: all strings <=4 over a 22-character alphabet (every regex alternation), all keyword/symbol spellings pairwise, all token sequences <=3 over 36 tokens and 4 over 20, plus random and mutated texts; any accept/reject or tree difference is itself a failing input because the model verdict is the grammar verdict.',
+          'TIE BY TRANSLATION, re-derived on every run (lib/vlib/srctab.py): the symbol alternation of the TOKENIZER regex and the literal arms of the two matches of tokenize are re-read from src/parser.rs and coqc checks source_symbols (forall l: leftmost-first alternation + symbol arms = scan_symbol / token_of_sym) and source_keywords (keyword arms = keyword table) through C08_source_symbols / C08_source_keywords; every string literal of the tokenizer is then run through both sides, so an ADDED spelling - which no generator writes - is itself the failing input. Correspondence: all strings <=4 over a 23-character alphabet (every regex alternation), all keyword/symbol spellings pairwise, all token sequences <=3 over 36 tokens and 4 over 20, plus random and mutated texts; any accept/reject or tree difference is itself a failing input because the model verdict is the grammar verdict.',
    NOTE_TEXT)
 _t('C09', 'Theorems: var_is_free f x holds iff x has an occurrence not enclosed by a binder of x (C09_free, over the explicit occurrence list occ f), and the support of the evaluated diagram is included in the free variables (C09_support, proved semantically via independence and essentiality of support variables). '
           'vars/free_vars as computed by new_with_env are modelled in Cli/Pipeline.v (sorted, duplicate-free, free = filter var_is_free). Correspondence: vars, free_vars and the support of the real result on every S-eval case (binder-only names, shadowing, names both bound and free).',
@@ -226,12 +226,13 @@ _t('C14', 'Theorems about the export functions as lists of (structure, label, st
 
 NOTE_GEN = ('Trusted: Coq kernel; extraction + ocamlopt; glue (the harness parses generator output with the real rsbdd parser and canonicalises the &-chain; the driver does the same to the model formula). '
             'Not modelled: clap, csv parsing, file I/O, the header comments. Hash-set iteration order (max_clique_gen, augment_colors) is a parameter of the theorems; the check reads the order off the real output or compares as sets. '
-            'fsem is the executable reference semantics, proved to agree with Den on fixed-point-free formulas.')
-_t('C15', 'Theorem for EVERY board size n >= 1: the emitted formula (six loop families as maps over seq, right-nested &-chain ending in true) is satisfied by an assignment iff it places exactly one queen per row and per column and no two on a common diagonal (C15, through coordinates and index identities, no bound on n); the token stream the generator prints (one list per line with a trailing comma, <= 1 / = 1, joined by &, closed by true) parses to exactly that formula (C15_text, by completeness of the parser for the grammar). '
+            'fsem is the executable reference semantics, proved to agree with Den on fixed-point-free formulas. '
+            'C15 / C17 additionally: the translator lib/vlib/srcloops.py (Rust for-loops over ranges, let bindings, usize expressions and the map/format!/join idiom to Gallina comprehensions) is trusted for the tie by translation; what it does not read (argument parsing, puzzle text handling, the rendering by write!) is tied by the correspondence only.')
+_t('C15', 'Theorem for EVERY board size n >= 1: the emitted formula (six loop families as maps over seq, right-nested &-chain ending in true) is satisfied by an assignment iff it places exactly one queen per row and per column and no two on a common diagonal (C15, through coordinates and index identities, no bound on n); the token stream the generator prints (one list per line with a trailing comma, <= 1 / = 1, joined by &, closed by true) parses to exactly that formula (C15_text, by completeness of the parser for the grammar). TIE BY TRANSLATION, re-derived on every run (lib/vlib/srcloops.py): the six for-nests of n_queens_gen/src/main.rs as they stand - ranges, index expressions, the comparison after each list - are translated to Gallina comprehensions and coqc checks, for ALL n, that no subtraction underflows inside the loops, that each nest is the corresponding family of the model (extensionality + lia/nia), hence source_loops: the printed items are queens_items n, and source_queens: for n >= 1 the printed tokens parse to a formula whose models are exactly the n-queens solutions (15 generated obligations). '
           'Correspondence: the real generator output, parsed by the real parser, equals queens_form n as a multiset of constraints for n = 0..12; n <= 4 solved end to end; the u16 boundary (255, 256, 300) by shape.', NOTE_GEN)
 _t('C16', 'Theorems: with the complement list the generator builds (comp_dir / comp_undir, proved sound and complete for adjacency in both directions / in either direction), the --all formula is satisfied exactly by the cliques and the default formula exactly by the cliques of maximum cardinality, for every vertex order, provided the copy naming is injective and fresh (C16_all_*, C16_max_undirected); the prefix loop of the repaired generator yields such copies (Prefix.v); the printed token streams - one -(a & b) & per complement pair or true &, then true or forall copies # ( .. ) => [vertices] >= [copies] - parse to exactly form_all / form_max (C16_text_all, C16_text_max). '
           'Correspondence: all small graphs x flags incl. vertex names that start with v_, against form_all / form_max; graphs <= 4 vertices solved end to end.', NOTE_GEN)
-_t('C17', 'Theorem for every root r and hint list with cells below r^4 and digits in 1..r^2: the emitted formula is satisfied iff the assignment encodes a grid that keeps the hints and has every number once per row, column and box (C17; boxes through a ring identity and one div/mod). The hint reader (white space stripped, position below r^4, ASCII digit) is hints_of_text; the printed token stream (hint variables, then the = 1 lists, joined by &, closed by true) parses to exactly that formula (C17_tokens). '
+_t('C17', 'Theorem for every root r and hint list with cells below r^4 and digits in 1..r^2: the emitted formula is satisfied iff the assignment encodes a grid that keeps the hints and has every number once per row, column and box (C17; boxes through a ring identity and one div/mod). The hint reader (white space stripped, position below r^4, ASCII digit) is hints_of_text; the printed token stream (hint variables, then the = 1 lists, joined by &, closed by true) parses to exactly that formula (C17_tokens). TIE BY TRANSLATION, re-derived on every run: the three constraint nests of sudoku_gen/src/main.rs (depth 1-3, let bindings, lists built by map/format!/join) are translated and proved, for ALL r, to be cell_lists / rowcol_lists / box_lists, every divisor positive, hence source_sudoku: the printed tokens parse to a formula satisfied exactly by encodings of completed grids that keep the hints (7 generated obligations); the hint reading before the loops stays with the correspondence. '
           'Digits 0 or above r^2 only force an auxiliary variable (outside the theorem\'s hypothesis, compared by correspondence). Correspondence: hints and constraint families as multisets for r = 1, 2, 3 on exhaustive small and random texts; the output must be a formula (D9).', NOTE_GEN)
 _t('C18', 'Theorems: for EVERY permutation the shuffle may return, a feasible request yields exactly E distinct candidate edges between distinct vertices below V (no pair in both orientations under -u) and an infeasible one is refused (C18_gen); the executable valid_output accepts exactly such answers (valid_output_sound, gen_graph_valid); --convert is the identity / merges reversed duplicates (C18_convert, C18_convert_u); a clique of the colour graph covering every vertex exists iff the input is k-colourable (C18_colours). '
           'The randomness itself cannot be exhibited by a model: every real answer is judged by the extracted valid_output. Correspondence: (V,E) grid x flags x repeated runs; convert and colours on all small edge lists.', NOTE_GEN)
